@@ -96,6 +96,29 @@ def flowStatFor (ivl : Nat) : FlowStat :=
     if checkReuse sc ivl 20 10000 = 0 then .global ⟨sc, ivl⟩
     else .priv ⟨sc, ivl / sc⟩ (ringInit MetricBucket.zero ⟨sc, ivl / sc⟩) ⟨sc, ivl⟩ []
 
+/-- a flow rule as given to `loadFlow`: direct/reject by default -/
+structure FlowSpec where
+  id : String
+  thr : F64
+  ivl : Nat
+  warmUp : Bool := false
+  throttling : Bool := false
+  period : Nat := 0
+  coldFactor : Nat := 0
+  maxQueueMs : Nat := 0
+  deriving Repr, Inhabited
+
+def FlowSpec.needStat (r : FlowSpec) : Bool := r.warmUp || !r.throttling
+
+
+/-- `flow::Rule`'s `PartialEq` (every field but the id) -/
+def FlowSpec.eqv (a b : FlowSpec) : Bool :=
+  a.thr == b.thr && a.ivl == b.ivl && a.warmUp == b.warmUp && a.throttling == b.throttling && a.period == b.period &&
+  a.coldFactor == b.coldFactor && a.maxQueueMs == b.maxQueueMs
+
+/-- `flow::Rule::is_stat_reusable` (same resource, relation and reference resource are implied here) -/
+def FlowSpec.statReusable (a b : FlowSpec) : Bool := a.ivl == b.ivl && a.needStat && b.needStat
+
 structure FlowCtrl where
   id : String
   thr : F64
@@ -104,7 +127,28 @@ structure FlowCtrl where
   calcr : FlowCalc := .direct
   checker : FlowChecker := .reject
   maxQueueMs : Nat := 0
+  spec : Option FlowSpec := none      -- the rule object the controller is bound to (kept when the controller is reused)
   deriving Repr, Inhabited
+
+/-- `build_resource_*` of the three controller-holding managers: for every rule, in the order the rule set is iterated,
+reuse the first old controller whose rule is equal (removing it from the old list); otherwise build a new controller,
+taking over the statistics of the first stat-reusable old controller (removing that one), otherwise a fresh one -/
+def rebuildCtrls {ρ κ : Type} (sameRule : ρ → κ → Bool) (statReusable : ρ → κ → Bool) (fresh : ρ → κ) (reuseStat : ρ → κ → κ) :
+    List ρ → List κ → List κ
+  | [], _ => []
+  | r :: rest, old =>
+    match old.findIdx? (sameRule r) with
+    | some i =>
+      match old[i]? with
+      | some c => c :: rebuildCtrls sameRule statReusable fresh reuseStat rest (old.eraseIdx i)
+      | none => rebuildCtrls sameRule statReusable fresh reuseStat rest old
+    | none =>
+      match old.findIdx? (statReusable r) with
+      | some j =>
+        match old[j]? with
+        | some c => reuseStat r c :: rebuildCtrls sameRule statReusable fresh reuseStat rest (old.eraseIdx j)
+        | none => fresh r :: rebuildCtrls sameRule statReusable fresh reuseStat rest old
+      | none => fresh r :: rebuildCtrls sameRule statReusable fresh reuseStat rest old
 
 /-- `read_only_metric().sum(Pass)` of a controller -/
 def FlowCtrl.curCount (c : FlowCtrl) (node : Node) (nowMs : Nat) : Nat :=
@@ -453,51 +497,61 @@ def exit (w : World) (eid : Nat) (err : Bool := false) : Option World :=
                   log := w.log ++ ev0 ++ evs,
                   entries := w.entries.filter (fun p => p.1 != eid) }
 
-/-- a flow rule as given to `loadFlow`: direct/reject by default -/
-structure FlowSpec where
-  id : String
-  thr : F64
-  ivl : Nat
-  warmUp : Bool := false
-  throttling : Bool := false
-  period : Nat := 0
-  coldFactor : Nat := 0
-  maxQueueMs : Nat := 0
-  deriving Repr, Inhabited
+/-- a fresh controller for a flow rule (`generate_stat_for` + calculator + checker) -/
+def freshFlowCtrl (r : FlowSpec) : FlowCtrl :=
+  { id := r.id, thr := r.thr, ivl := r.ivl,
+    stat := if r.needStat then flowStatFor r.ivl else .nop,
+    calcr := if r.warmUp then .warmUp (WarmUp.new r.thr r.period r.coldFactor) else .direct,
+    checker := if r.throttling then .throttling 0 else .reject,
+    maxQueueMs := r.maxQueueMs, spec := some r }
 
-def FlowSpec.needStat (r : FlowSpec) : Bool := r.warmUp || !r.throttling
-
-def FlowSpec.sameAs (r : FlowSpec) (c : FlowCtrl) : Bool :=
-  c.thr == r.thr && c.ivl == r.ivl && c.maxQueueMs == r.maxQueueMs &&
-  (match c.calcr with | .direct => !r.warmUp | .warmUp s => r.warmUp && s.coldFactor == (if r.coldFactor ≤ 1 then 3 else r.coldFactor)) &&
-  (match c.checker with | .reject => !r.throttling | .throttling _ => r.throttling)
-
-/-- `flow::load_rules_of_resource`: a rule equal to an old one keeps its controller (and statistics), otherwise a
-fresh one is built. The list is in the order in which the implementation holds the controllers. -/
+/-- `flow::load_rules_of_resource` / the per-resource part of `load_rules`: controllers are rebuilt with `rebuildCtrls`.
+The list is in the order in which the implementation processed the rules. -/
 def loadFlow (w : World) (res : String) (rules : List FlowSpec) : World :=
   let old := w.ctrls res
-  let mk := fun (r : FlowSpec) =>
-    match old.find? (fun c => r.sameAs c) with
-    | some c => { c with id := r.id }
-    | none => { id := r.id, thr := r.thr, ivl := r.ivl,
-                stat := if r.needStat then flowStatFor r.ivl else .nop,
-                calcr := if r.warmUp then .warmUp (WarmUp.new r.thr r.period r.coldFactor) else .direct,
-                checker := if r.throttling then .throttling 0 else .reject,
-                maxQueueMs := r.maxQueueMs }
+  let ctrls := rebuildCtrls
+    (fun (r : FlowSpec) (c : FlowCtrl) => match c.spec with | some s => r.eqv s | none => false)
+    (fun (r : FlowSpec) (c : FlowCtrl) => match c.spec with | some s => s.statReusable r | none => false)
+    freshFlowCtrl
+    (fun (r : FlowSpec) (c : FlowCtrl) => { freshFlowCtrl r with stat := c.stat })
+    rules old
   -- building controllers touches the resource node (generate_stat_for → get_or_create_resource_node)
   let w := { w with nodes := if rules.any (·.needStat) then update w.nodes res (w.node res) else w.nodes }
-  { w with flow := update w.flow res (rules.map mk) }
+  { w with flow := update w.flow res ctrls }
 
 def loadIso (w : World) (res : String) (rules : List IsoRule) : World :=
   { w with iso := update w.iso res rules }
 
-/-- `hotspot::load_rules_of_resource` with fresh controllers (reuse across reloads is C11's subject) -/
-def loadHs (w : World) (res : String) (rules : List HsRule) : World :=
-  { w with hs := update w.hs res (rules.map HsCtrl.new) }
+/-- `hotspot::Rule`'s `PartialEq` -/
+def hsRuleEqv (a b : HsRule) : Bool :=
+  a.metric == b.metric && a.strategy == b.strategy && a.paramIndex == b.paramIndex && a.paramKey == b.paramKey && a.thr == b.thr &&
+  a.durSec == b.durSec && a.maxCap == b.maxCap && a.specific == b.specific &&
+  (if a.strategy == .reject then a.burst == b.burst else a.maxQueueMs == b.maxQueueMs)
 
-/-- `circuitbreaker::load_rules_of_resource` with fresh breakers -/
+/-- `hotspot::Rule::is_stat_reusable` -/
+def hsStatReusable (a b : HsRule) : Bool :=
+  a.strategy == b.strategy && a.maxCap == b.maxCap && a.durSec == b.durSec && a.metric == b.metric
+
+/-- `hotspot::load_rules_of_resource`: equal rules keep their controller, stat-reusable ones their counters -/
+def loadHs (w : World) (res : String) (rules : List HsRule) : World :=
+  let ctrls := rebuildCtrls (fun (r : HsRule) (c : HsCtrl) => hsRuleEqv r c.rule) (fun (r : HsRule) (c : HsCtrl) => hsStatReusable c.rule r)
+    HsCtrl.new (fun (r : HsRule) (c : HsCtrl) => { c with rule := r }) rules (w.hsCtrls res)
+  { w with hs := update w.hs res ctrls }
+
+/-- `circuitbreaker::Rule`'s `PartialEq` -/
+def brRuleEqv (a b : BRule) : Bool :=
+  a.strategy == b.strategy && a.retryMs == b.retryMs && a.minReq == b.minReq && a.ivl == b.ivl && a.buckets == b.buckets &&
+  (match a.strategy with | .slowRatio => a.maxRt == b.maxRt && a.thr == b.thr | _ => a.thr == b.thr)
+
+/-- `circuitbreaker::Rule::is_stat_reusable` -/
+def brStatReusable (a b : BRule) : Bool := a.strategy == b.strategy && a.ivl == b.ivl && a.buckets == b.buckets
+
+/-- `circuitbreaker::load_rules_of_resource`: equal rules keep their breaker (state, deadline, counters), stat-reusable ones
+get a new Closed breaker on the old counters -/
 def loadBr (w : World) (res : String) (rules : List BRule) : World :=
-  { w with br := update w.br res (rules.map Breaker.new) }
+  let brs := rebuildCtrls (fun (r : BRule) (b : Breaker) => brRuleEqv r b.rule) (fun (r : BRule) (b : Breaker) => brStatReusable b.rule r)
+    Breaker.new (fun (r : BRule) (b : Breaker) => { Breaker.new r with ring := b.ring }) rules (w.breakers res)
+  { w with br := update w.br res brs }
 
 end World
 end Sentinel
